@@ -150,6 +150,19 @@ pub fn c18(cx: &Ctx, rep: &mut Report) {
             _ => c18_matrix::<8, 7>(api.p, cx, rep),
         }
     }
+    // ---------------- (f) butterfly-path family: maximise one NTT output slot (complete enumeration per layer)
+    for api in APIS {
+        c18_butterfly_path(api.p, cx, rep);
+    }
+    // ---------------- (g) aligned-product family: in-range matrix rows built so that every Montgomery product on a
+    // chosen slot mask sits just below +-q/2 (the largest value one product can take)
+    for api in APIS {
+        match api.p.id {
+            44 => c18_aligned::<4, 4>(api.p, cx, rep),
+            65 => c18_aligned::<6, 5>(api.p, cx, rep),
+            _ => c18_aligned::<8, 7>(api.p, cx, rep),
+        }
+    }
     // ---------------- (d) sparse-coset adversarial family
     for api in APIS {
         let p = api.p;
@@ -204,6 +217,144 @@ pub fn c18(cx: &Ctx, rep: &mut Report) {
         rep.extra.insert(format!("largest_row_sum_over_q_mldsa{}", p.id), json!(best));
         rep.sample(json!({"set":p.id,"sparse_coset_witnesses":ws.iter().map(|w| w.name.clone()).collect::<Vec<_>>(),"largest_row_sum_over_q":best,"i32_overflow_threshold_over_q":256.25}));
     }
+}
+
+/// (f) For output slot 0 (all '+' branches) and slot 255 (all '-' branches) of the forward transform, the value is
+/// z[0] +- sum over the 8 layers of mont_reduce(zeta_l * z[len_l]) when z is supported on {0, 128, 64, ..., 1}: the
+/// objective separates, so each layer's coefficient is chosen by COMPLETE enumeration of its range.
+fn c18_butterfly_path(p: &'static Params, cx: &Ctx, rep: &mut Report) {
+    let zt = hk::zeta_table_mont();
+    let ranges: Vec<(String, i32, i32)> = vec![
+        ("response z".into(), -((p.gamma1 - p.beta - 1) as i32), (p.gamma1 - p.beta - 1) as i32),
+        ("mask y".into(), -((p.gamma1 - 1) as i32), p.gamma1 as i32),
+        ("t0".into(), -4095, 4096),
+        ("t1*2^d".into(), 0, 1023 * 8192),
+    ];
+    for (rname, lo, hi) in ranges {
+        for slot in [0usize] {
+            for sign in [1i64, -1] {
+                let mut w = POLY0;
+                let mut evals = 0u64;
+                for l in 0..8 {
+                    // layer l: len = 128 >> l; element 0 belongs to the first group, whose zeta index is 2^l; its partner is
+                    // index len, which still holds the input coefficient when the support is {0, 128, 64, ..., 1}
+                    let len = 128usize >> l;
+                    let zeta = i64::from(zt[1 << l]);
+                    let best = if rname == "t1*2^d" {
+                        (0..1024i64).map(|v| v * 8192).map(|v| (i64::from(hk::mont_reduce(zeta * v)) * sign, v)).max().unwrap()
+                    } else {
+                        (i64::from(lo)..=i64::from(hi)).into_par_iter().map(|v| (i64::from(hk::mont_reduce(zeta * v)) * sign, v)).max().unwrap()
+                    };
+                    evals += if rname == "t1*2^d" { 1024 } else { (hi - lo + 1) as u64 };
+                    w[len] = best.1 as i32;
+                }
+                w[0] = if sign > 0 { hi } else { lo };
+                let name = format!("ML-DSA-{} butterfly-path {rname} slot {slot} sign {sign}", p.id);
+                rep.count(&format!("f:butterfly_path:mldsa{}", p.id), evals);
+                rep.nontrivial_by_construction(evals);
+                let replay = json!({"engine":"kernel","kernel":"ntt_to_mont","set":p.id,"w":w.iter().enumerate().filter(|(_,&c)| c!=0).map(|(i,&c)| json!([i,c])).collect::<Vec<_>>()});
+                match guard(|| {
+                    let h = hk::ntt(&[w]);
+                    let mo = hk::to_mont(&h);
+                    (h[0], mo[0])
+                }) {
+                    Err(pn) => rep.violate(viol(&format!("butterfly-path:panic:{}", pn.0.split('@').next_back().unwrap_or("").trim()), format!("{name}: ntt/to_mont panicked: {}", pn.0), replay)),
+                    Ok((h, mo)) => {
+                        let peak = h.iter().map(|&c| i64::from(c).abs()).max().unwrap();
+                        let e = rep.extra.entry(format!("largest_ntt_slot_over_q_mldsa{}", p.id)).or_insert(json!(0.0));
+                        if peak as f64 / Q as f64 > e.as_f64().unwrap_or(0.0) {
+                            *e = json!(peak as f64 / Q as f64);
+                        }
+                        let want = refmodel::ntt(&w);
+                        let ok_ntt = canon(&h) == want;
+                        let ok_mont = (0..256).all(|n| mod_q(i64::from(mo[n])) == ((i128::from(want[n]) << 32).rem_euclid(i128::from(Q))) as i64);
+                        if !ok_ntt || !ok_mont {
+                            rep.violate(viol("butterfly-path:wrong", format!("{name}: peak slot {:.3} q; ntt correct mod q: {ok_ntt}; to_mont congruent to x*2^32: {ok_mont}", peak as f64 / Q as f64), replay));
+                        }
+                    }
+                }
+            }
+        }
+    }
+    let _ = cx;
+}
+
+/// (g) aligned products
+fn c18_aligned<const K: usize, const L: usize>(p: &'static Params, cx: &Ctx, rep: &mut Report) {
+    let z: Vec<Poly> = crate::forge::small_z(p, 3).into_iter().map(|mut poly| {
+        poly[0] = (p.gamma1 - p.beta - 1) as i32;
+        poly
+    }).collect();
+    let za: [Poly; L] = core::array::from_fn(|j| z[j]);
+    let z_hat = hk::ntt(&za);
+    let u = hk::to_mont(&z_hat);
+    let masks: Vec<(&str, Box<dyn Fn(usize) -> bool + Sync>)> = vec![
+        ("all", Box::new(|_| true)), ("odd", Box::new(|n| n % 2 == 1)), ("even", Box::new(|n| n % 2 == 0)),
+        ("n%4==1", Box::new(|n| n % 4 == 1)), ("n%4==2", Box::new(|n| n % 4 == 2)), ("first-half", Box::new(|n| n < 128)), ("second-half", Box::new(|n| n >= 128)),
+        ("blocks-of-16-alternating", Box::new(|n| (n / 16) % 2 == 0)), ("n%8==7", Box::new(|n| n % 8 == 7)),
+    ];
+    let target_mag: i64 = Q / 2 - 16_400;
+    let inv = |a: i64| refmodel::pow_mod(a, (Q - 2) as u64);
+    let two32_inv = inv(((1i128 << 32) % i128::from(Q)) as i64);
+    let _ = two32_inv;
+    for (mname, mask) in &masks {
+        for sign in [1i64, -1] {
+            for other in [0i64, -1] {
+                // `other`: value aimed at on the slots outside the mask (0, or the opposite extreme)
+                let mut a = [[POLY0; L]; K];
+                let mut degenerate = false;
+                for k in 0..K {
+                    for j in 0..L {
+                        for n in 0..256 {
+                            let r_target = if mask(n) { sign * target_mag } else { other * sign * target_mag };
+                            let un = mod_q(i64::from(u[j][n]));
+                            if un == 0 {
+                                degenerate = true;
+                                continue;
+                            }
+                            // mont_reduce(a * u_n) = a * u_n * 2^-32  ==  r_target  =>  a = r_target * 2^32 * u_n^-1
+                            let av = (i128::from(mod_q(r_target)) * ((1i128 << 32) % i128::from(Q)) % i128::from(Q) * i128::from(inv(un)) % i128::from(Q)) as i64;
+                            a[k][j][n] = av as i32;
+                        }
+                    }
+                }
+                if degenerate {
+                    rep.machinery("aligned-product construction hit a zero NTT slot".into());
+                }
+                let name = format!("ML-DSA-{} aligned products mask '{mname}' sign {sign} rest {other}", p.id);
+                rep.count(&format!("g:aligned_products:mldsa{}", p.id), 1);
+                rep.nontrivial_by_construction(1);
+                let replay = json!({"engine":"kernel","kernel":"aligned_products","set":p.id,"mask":mname,"sign":sign,"rest":other});
+                let r = guard(|| {
+                    let w_hat = hk::mat_vec_mul::<K, L>(&a, &z_hat);
+                    let sums: Vec<i64> = w_hat.iter().map(|r| r.iter().map(|&c| i64::from(c)).sum()).collect();
+                    (hk::inv_ntt(&w_hat), sums)
+                });
+                match r {
+                    Err(pn) => rep.violate(viol(&format!("aligned:panic:{}", pn.0.split('@').next_back().unwrap_or("").trim()), format!("{name}: mat_vec_mul / inv_ntt panicked on an in-range matrix row and vector: {}", pn.0), replay)),
+                    Ok((w, sums)) => {
+                        let e = rep.extra.entry(format!("largest_aligned_row_sum_over_q_mldsa{}", p.id)).or_insert(json!(0.0));
+                        let peak = sums.iter().map(|s| s.abs()).max().unwrap() as f64 / Q as f64;
+                        if peak > e.as_f64().unwrap_or(0.0) {
+                            *e = json!(peak);
+                        }
+                        // reference: sum_j A_kj o z_hat_j (canonical), inverse transform
+                        let ok = (0..K).all(|k| {
+                            let mut acc = POLY0;
+                            for j in 0..L {
+                                acc = refmodel::add_poly(&acc, &refmodel::multiply_ntt(&a[k][j], &canon(&z_hat[j])));
+                            }
+                            canon(&w[k]) == refmodel::inv_ntt(&acc)
+                        });
+                        if !ok {
+                            rep.violate(viol("aligned:wrong-product", format!("{name}: result differs from the product mod q (row sum {peak:.1} q)"), replay));
+                        }
+                    }
+                }
+            }
+        }
+    }
+    let _ = cx;
 }
 
 fn c18_matrix<const K: usize, const L: usize>(p: &'static Params, cx: &Ctx, rep: &mut Report) {
